@@ -4,8 +4,8 @@ From TL Require Import Lib.Base Gen.IgnoreGen Model.PyStr Model.Ignore Actual.Ig
 
 Lemma pipeline_table_consistent :
   forallb (fun p => smem p linter_packages && negb (smem p shared_parser_users)) (no_inline_support ++ own_line_check_only) = true
-  /\ forallb (fun p => smem p shared_parser_users) ["magic_numbers"; "print_statements"; "nesting"; "srp"; "performance"] = true
+  /\ forallb (fun p => smem p shared_parser_users) ["magic_numbers"; "print_statements"; "nesting"; "srp"; "performance"; "collection_pipeline"; "stateless_class"] = true
   /\ forallb (fun p => uses_shared (pipeline_of p "py") && uses_shared (pipeline_of p "ts") && uses_shared (pipeline_of p "rs"))
-             ["magic_numbers"; "print_statements"; "nesting"; "srp"; "performance"] = true
+             ["magic_numbers"; "print_statements"; "nesting"; "srp"; "performance"; "collection_pipeline"; "stateless_class"] = true
   /\ forallb (fun p => negb (uses_shared (pipeline_of p "py"))) (no_inline_support ++ own_line_check_only) = true.
 Proof. vm_compute. repeat split; reflexivity. Qed.
